@@ -97,6 +97,19 @@ func propC04(ch core.Chooser, st *core.Stats) error {
 		if err := s.readback("after Open"); err != nil {
 			return fmt.Errorf("epoch %d: %v", e, err)
 		}
+		if core.Pct(ch, "hazard_prefix", 25) {
+			if err := s.hazardPrefill(); err != nil {
+				return fmt.Errorf("epoch %d: %v", e, err)
+			}
+			if core.Pct(ch, "hazard_compact", 70) {
+				if err := s.compact(); err != nil {
+					return fmt.Errorf("epoch %d: %v", e, err)
+				}
+				if err := s.readback("after Compact"); err != nil {
+					return fmt.Errorf("epoch %d: %v", e, err)
+				}
+			}
+		}
 		n := ch.Int("nops", 0, core.Scale(25, 60))
 		if err := s.runOps(n, []int{8, 4, 2, 1, 1, 1, 1}); err != nil {
 			return fmt.Errorf("epoch %d: %v", e, err)
